@@ -12,14 +12,14 @@ RULE = ('eid stage as in C07 (implementation vs extracted model). Oracle 1: an i
         'from the ancestor path of a uniquely numbered provision; its eId must not change. non-trivial = >= 2 identified elements; '
         'distinct by input.')
 TRUSTED_BASE = C07.TRUSTED_BASE
-ASSUMPTIONS = C07.ASSUMPTIONS + ['"uniquely numbered implies no suffix" is not a theorem (needs unique decomposition of ids at underscores): decided by oracle 2']
+ASSUMPTIONS = C07.ASSUMPTIONS + ['"uniquely numbered" is read from the ids in the output: a provision is uniquely numbered along its path when no earlier id (document order) is built on the candidate of any identified element of the path (path_first); that this follows from "no earlier element has the same name and number in the same scope" needs the unique decomposition of ids at underscores and is decided by oracle 2']
 
 def _tree_oracle(args):
     prefix, tree = args
     from bluebell.xml import IdGenerator
     el = xmlsx.from_sx(tree)
     IdGenerator().rewrite_all_eids(el, prefix)
-    return eidlib.c08_convention_oracle(el, prefix)
+    return eidlib.c08_convention_oracle(el, prefix) or eidlib.c08_first_asker_oracle(el, prefix)
 
 def _doc_oracle(args):
     text, root, prefix = args
@@ -28,7 +28,7 @@ def _doc_oracle(args):
     except Exception as e:
         return ('raised', impl.exc_kind(e))
     n = sum(1 for el in eidlib.iter_outside_meta(xml) if el.get('eId'))
-    return ('ok', eidlib.c08_convention_oracle(xml, prefix), n)
+    return ('ok', eidlib.c08_convention_oracle(xml, prefix) or eidlib.c08_first_asker_oracle(xml, prefix), n)
 
 # ---- edit pairs on trees ----
 def unique_provisions(el):
@@ -195,7 +195,10 @@ LEVEL_TEXT = ('Proof over the Gallina model, for every tree, prefix and generato
               'unsuffixed, own-numbered ancestor path is a function of the (name, num) labels along that path, hence stable under any edit that '
               'keeps the path (C08_path_determined_partial, C08_stable_under_edit_partial); the ids of a whole subtree depend on the generator state '
               'only through the keys under its prefix, so an edit elsewhere that leaves those counters alone leaves every id in the subtree '
-              'alone (C08_subtree_ids_local); below every identified element every id extends that element\'s id by "__..." (C08_ids_nest). That unique numbering implies "unsuffixed", the exact '
-              'counter scope and the suffix order are decided by the reference-computation oracle and the edit-pair search on the implementation.')
+              'alone (C08_subtree_ids_local); below every identified element every id extends that element\'s id by "__..." (C08_ids_nest); clashes are suffixed in document order: '
+              'in the output of a run a numbered element carries its bare candidate unless an EARLIER id is built on that candidate (C08_clash_suffix_in_document_order), hence a provision '
+              'uniquely numbered along its ancestor path has the id spelled by the names and numbers along the path (C08_path_determined) and two documents, however different, '
+              'give it the same id (C08_stable_under_edit; instances of the first-asker rule are checked on every generated tree and document). The exact '
+              'counter values are tied by the eid stage, the reference-computation oracle and the edit-pair search on the implementation.')
 LEVEL_NOTE = 'Trusted base as C07. Partial: see ASSUMPTIONS in evidence; the exact suffix/counter values are tied by the eid stage only.'
 TECHNIQUE = 'Rocq proof (induction over trees / ancestor paths) + differential run + reference-computation and edit-pair oracles'
